@@ -227,6 +227,11 @@ def malformed(n):
     # M5 several dots
     for lit in ("1.2.3", "1..2", "1..", ".1.2", "10.0.0", "1.2.3.4"):
         yield ("M5.dots", "MULTIPLE_DOTS", lit, "")
+    # a second dot (or a fraction) after a well-formed exponent
+    for lit in ("1.5e3.2", ".5E+5.1", "2.5e-3.f", "12.e5.", "0x1.8p3.1", "0x.8P-2.5f", "1.e5.0"):
+        yield ("M5.dot-after-exponent", "MULTIPLE_DOTS", lit, "")
+    for lit in ("1e5.3", "1e5.", "1e+5.5e1", "7E-2.f"):
+        yield ("M3.dot-after-exponent", "BAD_FLOAT_SUFFIX", lit, "")
     # M6 empty / unterminated character
     for p in PREFIXES:
         yield ("M6.empty-char", "EMPTY_CHAR", p + "''", "")
